@@ -147,6 +147,16 @@ def random_network(rng, quick=True, force=None):
                 a, b = (name, other) if rev else (other, name)
                 spec["valves"].append({"name": ln, "start": a, "end": b, "diam": 0.3, "type": "TCV", "setting": _r(rng, 1, 50, 1),
                                        "minor_loss": rng.choice([0.0, 2.5])})
+    # tank leaks (C06 stream): Tank.add_leak with a window on or off the hydraulic grid; DD and PDD
+    if force.get("leaks"):
+        spec["options"]["demand_model"] = rng.choice(["DD", "PDD"])
+        for tk in spec["tanks"]:
+            if rng.random() < 0.7:
+                a = rng.randint(0, max(0, nsteps - 3))
+                b = rng.randint(a + 1, nsteps)
+                off = lambda: rng.choice([0, 0, rng.randint(1, hyd - 1)])
+                tk["leak"] = {"area": _r(rng, 0.0005, 0.004, 5), "cd": rng.choice([0.6, 0.75, 0.9]),
+                              "start": rng.choice([0, a * hyd + off()]), "end": rng.choice([None, b * hyd + off()])}
     # simple controls
     links = [p["name"] for p in spec["pipes"]] + [p["name"] for p in spec["pumps"]] + [v["name"] for v in spec["valves"]]
     nctl = rng.randint(1, 5)
@@ -318,6 +328,20 @@ def two_threshold_spec(curve=False, same_tank=True):
     return spec
 
 
+def tank_leak_spec(demand_model="DD"):
+    """seeded/C08-6: a tank with a leak inside a window; the stored volume must follow (link inflow - leak) * dt"""
+    s = _base(3600, 10)
+    s["options"]["demand_model"] = demand_model
+    s["reservoirs"].append({"name": "R", "head": 50.0})
+    s["junctions"] += [{"name": "J1", "elev": 5.0, "demand": 0.006, "pattern": None}, {"name": "J2", "elev": 8.0, "demand": 0.004, "pattern": None}]
+    s["tanks"].append({"name": "T", "elev": 30.0, "init": 8.0, "min": 0.0, "max": 25.0, "diam": 10.0, "curve": None,
+                       "leak": {"area": 0.0012566, "cd": 0.7, "start": 3 * 3600, "end": 7 * 3600 + 450}})
+    s["pipes"] += [{"name": "P0", "start": "R", "end": "J1", "length": 400.0, "diam": 0.3, "rough": 110.0, "cv": False, "status": "OPEN"},
+                   {"name": "P1", "start": "J1", "end": "J2", "length": 400.0, "diam": 0.25, "rough": 110.0, "cv": False, "status": "OPEN"},
+                   {"name": "P2", "start": "J2", "end": "T", "length": 250.0, "diam": 0.25, "rough": 110.0, "cv": False, "status": "OPEN"}]
+    return s
+
+
 def volcurve_clamp_spec():
     """DESIGN §6 C06: curve (0,0),(2,100),(4,400),(6,500), max_level 5.5, one-hour step"""
     return {
@@ -407,6 +431,10 @@ def build_wn(wntr, spec, report="ALL"):
     wn.options.time.rule_timestep = o["rule_timestep"]
     wn.options.time.report_timestep = report
     wn.options.hydraulic.trials = o.get("trials", 40)
+    if o.get("demand_model"):
+        wn.options.hydraulic.demand_model = o["demand_model"]
+        wn.options.hydraulic.required_pressure = 15.0
+        wn.options.hydraulic.minimum_pressure = 0.0
     for n, m in spec["patterns"].items():
         wn.add_pattern(n, list(m))
     for n, c in spec["curves"].items():
@@ -418,6 +446,10 @@ def build_wn(wntr, spec, report="ALL"):
     for t in spec["tanks"]:
         wn.add_tank(t["name"], elevation=t["elev"], init_level=t["init"], min_level=t["min"], max_level=t["max"],
                     diameter=t["diam"], vol_curve=t["curve"])
+    for t in spec["tanks"]:
+        if t.get("leak"):
+            lk = t["leak"]
+            wn.get_node(t["name"]).add_leak(wn, area=lk["area"], discharge_coeff=lk["cd"], start_time=lk["start"], end_time=lk["end"])
     for p in spec["pipes"]:
         wn.add_pipe(p["name"], p["start"], p["end"], length=p["length"], diameter=p["diam"], roughness=p["rough"],
                     minor_loss=0.0, initial_status=p["status"], check_valve=p["cv"])
@@ -641,6 +673,7 @@ def run_instrumented(spec, report="ALL", wn=None, keep_wn=False):
         orig_save(w, node_res, link_res)
         row = dict(t=float(w.sim_time),
                    tanks={n: (float(t.head), _num(t.demand)) for n, t in w.tanks()},
+                   leak={n: (_num(t.leak_demand), bool(t.leak_status)) for n, t in w.tanks()},
                    junc={n: (_num(j.head), _num(j.head) - float(j.elevation) if not j._is_isolated else 0.0, _num(j.demand)) for n, j in w.junctions()},
                    links={n: (float(int(w.get_link(n).status)), _num(w.get_link(n)._setting)) for n in names},
                    flow={n: _num(w.get_link(n).flow) for n in names},
